@@ -26,6 +26,8 @@ pub enum WState {
 }
 
 pub enum WCmd {
+    /// take what other handlers pushed on this connection's channel (notifications, notices)
+    Drain,
     Exec(String),
     /// what tcp_ops::handle_client does when the peer closes the connection
     Eof,
@@ -134,6 +136,11 @@ impl Worker {
                 while let Ok(cmd) = rx.recv() {
                     match cmd {
                         WCmd::Quit => break,
+                        WCmd::Drain => {
+                            let msgs = drain(&mut crx);
+                            *sh.st.lock().unwrap() = WState::Done { resp: "DRAIN".into(), msgs, panic: None };
+                            sh.cv.notify_all();
+                        }
                         WCmd::Exec(line) => {
                             let r = std::panic::catch_unwind(std::panic::AssertUnwindSafe(|| nundb::process_request::process_request(&line, &dbs, &mut client)));
                             let mut msgs = drain(&mut crx);
@@ -295,6 +302,26 @@ pub struct ScriptClient {
     pub eof_at_end: bool,
     pub done: bool,
     pub replies: Vec<(String, String, Vec<String>)>,
+    /// everything that arrived on this session's channel so far (arbiter notices, notifications)
+    pub inbox: Vec<String>,
+    pub answered: usize,
+}
+
+impl ScriptClient {
+    /// the oldest notice ("resolve <id> <db> <version> <key> <old> <value>") not answered yet
+    pub fn next_notice(&self) -> Option<(u64, String, i32, String)> {
+        self.inbox
+            .iter()
+            .filter_map(|m| {
+                let p: Vec<&str> = m.trim().split(' ').collect();
+                if p.len() >= 7 && p[0] == "resolve" {
+                    Some((p[1].parse::<u64>().ok()?, p[2].to_string(), p[3].parse::<i32>().ok()?, p[4].to_string()))
+                } else {
+                    None
+                }
+            })
+            .nth(self.answered)
+    }
 }
 
 #[derive(Clone, Debug, PartialEq, Eq, PartialOrd, Ord, Hash)]
@@ -347,7 +374,7 @@ impl NetWorld {
 
     pub fn add_client(&mut self, node: usize, script: &[&str], eof_at_end: bool) -> usize {
         let w = Worker::spawn(&format!("c{}@n{}", self.clients.len(), node + 1), &self.nodes[node].node, false);
-        self.clients.push(ScriptClient { node, worker: w, script: script.iter().map(|s| s.to_string()).collect(), eof_at_end, done: false, replies: vec![] });
+        self.clients.push(ScriptClient { node, worker: w, script: script.iter().map(|s| s.to_string()).collect(), eof_at_end, done: false, replies: vec![], inbox: vec![], answered: 0 });
         self.clients.len() - 1
     }
 
@@ -396,6 +423,15 @@ impl NetWorld {
                     _ => {
                         // connection refused: the link thread ends at once
                         h.close();
+                    }
+                }
+            }
+        }
+        for ci in 0..self.clients.len() {
+            if self.clients[ci].worker.state() == WState::Idle && self.nodes[self.clients[ci].node].alive {
+                if self.clients[ci].worker.run(WCmd::Drain).is_ok() {
+                    if let Some((_, msgs, _)) = self.clients[ci].worker.take_done() {
+                        self.clients[ci].inbox.extend(msgs);
                     }
                 }
             }
@@ -468,6 +504,9 @@ impl NetWorld {
         if with_clients {
             for (i, c) in self.clients.iter().enumerate() {
                 if !c.done && c.worker.state() == WState::Idle && self.nodes[c.node].alive {
+                    if c.script.front().map(|l| l.starts_with("<resolve-next")).unwrap_or(false) && c.next_notice().is_none() {
+                        continue;
+                    }
                     v.push(T::Client(i));
                 }
             }
@@ -605,6 +644,12 @@ impl NetWorld {
                 let node = self.clients[*ci].node;
                 if line == "<eof>" {
                     self.clients[*ci].worker.run(WCmd::Eof)?;
+                } else if let Some(val) = line.strip_prefix("<resolve-next ") {
+                    // the arbiter answers the oldest open notice, echoing its op id and version
+                    let (id, db, ver, key) = self.clients[*ci].next_notice().ok_or("no notice to answer")?;
+                    self.clients[*ci].answered += 1;
+                    let cmd = format!("resolve {} {} {} {} {}", id, db, key, ver, val.trim_end_matches('>'));
+                    self.clients[*ci].worker.run(WCmd::Exec(cmd))?;
                 } else {
                     self.clients[*ci].worker.run(WCmd::Exec(line.clone()))?;
                 }
@@ -731,7 +776,7 @@ impl NetWorld {
             }
         }
         for c in self.clients.iter() {
-            s.push_str(&format!("[c@{} left={} {:?}]", c.node + 1, c.script.len(), c.worker.state()));
+            s.push_str(&format!("[c@{} left={} {:?} inbox={:?} ans={}]", c.node + 1, c.script.len(), c.worker.state(), c.inbox, c.answered));
         }
         for n in self.nodes.iter() {
             if let Some(w) = &n.join_worker {
